@@ -106,6 +106,9 @@ func c20ParseReq(s string) (map[string]interface{}, string, error) {
 
 func c20Run(input string) string {
 	parts := strings.Split(input, "|")
+	if len(parts) == 2 && parts[0] == "bbs" {
+		return c20RunBBS(parts[1]) // BBS+ credentials under limit_disclosure (c20bbs.go)
+	}
 	if len(parts) != 3 {
 		return "bad-input"
 	}
@@ -562,6 +565,7 @@ func c20Gen(r *Rng, tier string) []string {
 		out = append(out, "D:"+strings.Join(ds, ";")+"|R:"+req+"|C:"+strings.Join(cs, ";"))
 	}
 	out = append(out, c20SDGen(r, n/20)...)
+	out = append(out, c20GenBBS(r, 12+n/500)...) // BBS+ derivations are slow: a few dozen
 	return out
 }
 
